@@ -436,7 +436,9 @@ def entriesOf (s : State) (abs : FsPath) : Outcome (Entry × Snap) :=
 
 def isDirP (s : State) (p : FsPath) : Bool := match alLookup p s.entries with | some e => e.dir && !e.link | none => false
 
-/-- listing helpers: `is_dir` check, then the sorted traversal with the given depth window and filter -/
+/-- listing helpers: `is_dir` check, then the sorted traversal with the given depth window and filter;
+    `dirs` / `files` / `all_dirs` / `all_files` (not `paths` / `all_paths`) skip link entries in the
+    collecting loop (`if entry.is_symlink() { continue; }`, repair of `listing_includes_links`) -/
 def listing (env : Env) (path : Str) (maxDepth : Option Nat) (dirs files : Bool) : M (List FsPath) := do
   let s ← get
   -- `if !self.is_dir(&path)`: abs errors count as "not a directory"
@@ -449,6 +451,8 @@ def listing (env : Env) (path : Str) (maxDepth : Option Nat) (dirs files : Bool)
   let o := match maxDepth with | some d => o.setMax d | none => o
   let o := { o with sorted := true, dirs := dirs ∧ !files, files := files }
   let es ← liftO (collectEntries snap o rootE)
+  -- `let entry = entry?; if entry.is_symlink() { continue; } paths.push(entry.path_buf());`
+  let es := if dirs ∨ files then es.filter (fun e => !e.link) else es
   return es.map (·.path)
 
 /-! ### mutators -/
